@@ -276,7 +276,7 @@ func (p *sparser) primary() *SExpr {
 					panic("spec parse: binder name expected in " + p.src)
 				}
 				bs = append(bs, n.s)
-				if p.peek().k == "ident" { // optional type (always int)
+				if p.peek().k == "ident" && p.peek().s != "in" { // optional type (always int)
 					p.next()
 				}
 				if p.isOp(",") {
@@ -285,9 +285,24 @@ func (p *sparser) primary() *SExpr {
 				}
 				break
 			}
+			// exists w in (t1, t2, ..) :: P(w) - candidate witnesses for proving the clause
+			var hints []*SExpr
+			if t.s == "exists" && p.peek().k == "ident" && p.peek().s == "in" {
+				p.next()
+				p.expect("(")
+				for {
+					hints = append(hints, p.impl())
+					if p.isOp(",") {
+						p.next()
+						continue
+					}
+					break
+				}
+				p.expect(")")
+			}
 			p.expect("::")
 			body := p.impl()
-			return &SExpr{Op: t.s, Binders: bs, Args: []*SExpr{body}}
+			return &SExpr{Op: t.s, Binders: bs, Args: append([]*SExpr{body}, hints...)}
 		}
 		return &SExpr{Op: "ident", Name: t.s}
 	case "op":
@@ -350,6 +365,10 @@ type FuncSpec struct {
 	Guarded  []string
 	Reveals  []*SExpr
 	SplitPaths  bool     // states are not merged at the joins of this function's if-statements (path-wise execution, bounded by the lane budget)
+	UnrollLoops map[string]bool // "callee:ord": with inline-calls, only these loops of the inlined callees are unrolled; the others are cut by the callee's own invariants
+	Cases       []*Clause // case analysis over the inputs: the function is verified once per case (added to the preconditions); their disjunction is an obligation
+	InstReads   bool      // quantified hypotheses about a slice's object are instantiated at every index the code reads from it
+	PrunePaths  bool      // branches whose path condition a solver refutes (within 2 s) are not executed
 	InlineCalls []string // callees executed from their bodies (with this function's unroll bound) although they have contracts
 	UnrollComplete bool
 	OverflowChecked bool // int/int64 + - *: absence of overflow is an obligation, then the exact result is used
@@ -379,7 +398,7 @@ type Contracts struct {
 	ConstBytes map[string][]byte // pkgpath.Name -> contents of a constant package-level byte slice
 }
 
-var clauseKw = regexp.MustCompile(`^(split-paths|requires|ensures|modifies|loop|end|inline-calls|int-overflow-checked|inline|trusted|pure-effects|noalloc|unroll|reveal)\b`)
+var clauseKw = regexp.MustCompile(`^(split-paths|prune-paths|instantiate-reads|unroll-loops|case|requires|ensures|modifies|loop|end|inline-calls|int-overflow-checked|inline|trusted|pure-effects|noalloc|unroll|reveal)\b`)
 var labelRe = regexp.MustCompile(`^([A-Za-z_][A-Za-z0-9_]*)\s*(\[[A-Z0-9, ]*\])?\s*:\s*(.*)$`)
 
 func parseTags(s string) []string {
@@ -557,6 +576,12 @@ func (cs *Contracts) parseFile(pkg, file, data string) {
 			panic(fmt.Sprintf("%s:%d: clause outside spec: %s", file, l.n, s))
 		case strings.HasPrefix(s, "requires "):
 			cur.Requires = append(cur.Requires, parseClause(strings.TrimSpace(s[9:]), file, l.n))
+		case strings.HasPrefix(s, "case "):
+			cl := parseClause(strings.TrimSpace(s[5:]), file, l.n)
+			if cl.Label == "" {
+				cl.Label = fmt.Sprintf("case%d", len(cur.Cases))
+			}
+			cur.Cases = append(cur.Cases, cl)
 		case strings.HasPrefix(s, "ensures "):
 			cl := parseClause(strings.TrimSpace(s[8:]), file, l.n)
 			if cl.Label == "" {
@@ -614,6 +639,10 @@ func (cs *Contracts) parseFile(pkg, file, data string) {
 			cur.Inline = true
 		case s == "split-paths":
 			cur.SplitPaths = true
+		case s == "prune-paths":
+			cur.PrunePaths = true
+		case s == "instantiate-reads":
+			cur.InstReads = true
 		case s == "trusted":
 			cur.Trusted = true
 		case s == "pure-effects":
@@ -624,6 +653,15 @@ func (cs *Contracts) parseFile(pkg, file, data string) {
 			f := strings.Fields(s)
 			fmt.Sscan(f[1], &cur.Unroll)
 			cur.UnrollComplete = len(f) > 2 && f[2] == "complete"
+		case strings.HasPrefix(s, "unroll-loops "):
+			if cur.UnrollLoops == nil {
+				cur.UnrollLoops = map[string]bool{}
+			}
+			for _, f := range strings.Split(s[len("unroll-loops "):], ",") {
+				if f = strings.TrimSpace(f); f != "" {
+					cur.UnrollLoops[f] = true
+				}
+			}
 		case strings.HasPrefix(s, "inline-calls "):
 			for _, f := range strings.Split(s[len("inline-calls "):], ",") {
 				if f = strings.TrimSpace(f); f != "" {
@@ -755,7 +793,11 @@ func substSpec(x *SExpr, m map[string]*SExpr, bound map[string]bool) *SExpr {
 		for _, b := range x.Binders {
 			nb[b] = true
 		}
-		return &SExpr{Op: x.Op, Binders: x.Binders, Args: []*SExpr{substSpec(x.Args[0], m, nb)}}
+		out := &SExpr{Op: x.Op, Binders: x.Binders, Args: []*SExpr{substSpec(x.Args[0], m, nb)}}
+		for _, h := range x.Args[1:] {
+			out.Args = append(out.Args, substSpec(h, m, bound))
+		}
+		return out
 	}
 	out := &SExpr{Op: x.Op, Name: x.Name, Num: x.Num, Binders: x.Binders}
 	for _, a := range x.Args {
